@@ -154,7 +154,11 @@ class RDMol2StereoMolGraph:
                     )
 
             elif chiral_tag == Chem.ChiralType.CHI_TETRAHEDRAL or (
-                hybridization == Chem.HybridizationType.SP3
+                # an unlabelled sp3 atom; a centre that carries a square
+                # planar (or other) label keeps it whatever hybridisation
+                # the sanitisation has assigned to its element
+                chiral_tag == Chem.ChiralType.CHI_UNSPECIFIED
+                and hybridization == Chem.HybridizationType.SP3
                 and len(neighbors) == 4
             ):
                 short_stereo_atoms = (id_atom_map[atom_idx], *neighbors)
